@@ -63,6 +63,16 @@ def run(ck, prop_file, theorems):
         ck.violation(f"proof gate: missing={missing} unexpected axioms={sorted(extra)} print-assumption blocks={len(blocks)}/{n_print}",
                      {"failing_input_found": False, "theorem": prop_file})
         return False
+    if getattr(ck, "tier", "quick") == "thorough":
+        mod = "PlonkV.Props." + prop_file[:-2]
+        q = sh(f"timeout 3000 coqchk -silent -o -Q theories PlonkV {mod}", cwd=VERIF, check=False)
+        m = re.search(r"\* Axioms:(.*?)\n\s*\n", q.stdout, re.S)
+        ax = m.group(1).strip() if m else "?"
+        if q.returncode != 0 or ax != "<none>" or "type-in-type: <none>" not in q.stdout:
+            ck.violation(f"coqchk re-check of {mod} failed or reports axioms: {ax[:300]} {q.stdout[-300:]}",
+                         {"failing_input_found": False, "theorem": mod + " (coqchk)"})
+            return False
+        ck.notes.append(f"coqchk -o {mod}: Axioms <none>, no type-in-type, no unsafe fixpoints, no assumed positivity")
     ck.discharged = list(theorems)
     ck.notes.append(f"proof gate: {len(theorems)} theorems of Props/{prop_file} compiled; Print Assumptions: {'closed' if not axioms else sorted(axioms)}; coq build {dt:.1f}s")
     if unpinned:
